@@ -26,6 +26,9 @@ import (
 type Spec struct {
 	Chain  string
 	Params bool
+	// LateExec: an observed deposit / bridge-call result is parked; executing it is a separate step that anybody may
+	// take at any later time (otherwise the relay executes it at once)
+	LateExec bool
 	// Focus narrows the alphabet to batches only (no bridge calls, no cancels) and offers a second parameter
 	// change that shortens the batch timeout, so that histories with two pending batches whose timeouts are
 	// not monotonic in their nonces come within the depth bound
@@ -37,7 +40,9 @@ type Spec struct {
 	usdt   scen.Token // second token (Focus): batch nonces are shared by all tokens, the contract's nonce rule is per token
 }
 
-func (s *Spec) Name() string { return fmt.Sprintf("c06/%s/params=%v/focus=%v", s.Chain, s.Params, s.Focus) }
+func (s *Spec) Name() string {
+	return fmt.Sprintf("c06/%s/params=%v/focus=%v/late-exec=%v", s.Chain, s.Params, s.Focus, s.LateExec)
+}
 
 type Event struct {
 	Nonce  uint64
@@ -396,7 +401,7 @@ func (s *Spec) Ops(st *explore.State) []explore.Op {
 			if ev.Height > cm.MaxObserved {
 				cm.MaxObserved = ev.Height
 			}
-			if ev.Kind != "batch" {
+			if ev.Kind != "batch" && !s.LateExec {
 				er := s.w.CallABI(c.Ctx, s.w.A("rel"), cctypes.GetAddress(), cctypes.GetABI(), nil, 1_000_000, "executeClaim", ch, new(big.Int).SetUint64(ev.Nonce))
 				if !er.Success() {
 					c.Outcome = "execute-failed"
@@ -404,6 +409,22 @@ func (s *Spec) Ops(st *explore.State) []explore.Op {
 				}
 			}
 		}))
+	}
+	if s.LateExec {
+		for i := 0; i < m.Relayed; i++ {
+			ev := m.Events[i]
+			if _, parked := k.GetPendingExecuteClaim(ctx, ev.Nonce); !parked {
+				continue
+			}
+			ops = append(ops, s.wrap(fmt.Sprintf("Exec(#%d,%s)", ev.Nonce, ev.Kind), &ev, func(c *explore.State) {
+				er := s.w.CallABI(c.Ctx, s.w.A("rel"), cctypes.GetAddress(), cctypes.GetABI(), nil, 1_000_000, "executeClaim", ch, new(big.Int).SetUint64(ev.Nonce))
+				ok(c, er.Success())
+				if !er.Success() {
+					c.Outcome = "execute-failed"
+					c.Violate("external-events-are-processable", sig("parked-event-cannot-be-executed/"+ev.Kind), fmt.Sprintf("event %+v was observed and parked, its execution fails: %s", ev, er))
+				}
+			}))
+		}
 	}
 	return ops
 }
@@ -443,11 +464,13 @@ func init() {
 					{Name: "eth", Spec: &Spec{Chain: "eth", Params: true}, Depth: 10, ShardDepth: 2},
 					{Name: "tron", Spec: &Spec{Chain: "tron"}, Depth: 9, ShardDepth: 2},
 					{Name: "eth-batches-nonmonotonic-timeouts", Spec: &Spec{Chain: "eth", Focus: true}, Depth: 12, ShardDepth: 2},
+					{Name: "eth-parked-results-executed-late", Spec: &Spec{Chain: "eth", LateExec: true}, Depth: 10, ShardDepth: 2},
 				}
 			}
 			return []registry.Job{
 				{Name: "eth", Spec: &Spec{Chain: "eth", Params: true}, Depth: 8, ShardDepth: 2},
 				{Name: "eth-batches-nonmonotonic-timeouts", Spec: &Spec{Chain: "eth", Focus: true}, Depth: 10, ShardDepth: 2},
+				{Name: "eth-parked-results-executed-late", Spec: &Spec{Chain: "eth", LateExec: true}, Depth: 8, ShardDepth: 2},
 			}
 		},
 	})
